@@ -70,6 +70,7 @@ class Ctx:
         self._vcount = {}
         self.samples = []
         self.harness_errors = []
+        self.foreign = []
         self.case = None
 
     # -- bookkeeping -------------------------------------------------------------------
@@ -105,7 +106,7 @@ class Ctx:
     def dump(self, wall):
         return {'evaluations': self.evaluations, 'sigs': sorted(self.sigs), 'counters': self.counters,
                 'maxstats': self.maxstats, 'violations': self.violations, 'vcount': self._vcount,
-                'samples': self.samples, 'harness_errors': self.harness_errors[:5], 'wall': wall}
+                'samples': self.samples, 'harness_errors': self.harness_errors[:5], 'wall': wall, 'foreign': self.foreign[:5]}
 
 
 def load_module(pid):
@@ -119,6 +120,9 @@ def run_shard(pid, tier, seed, shard, nshards, out):
         bootstrap.ensure_deps()
         bootstrap.load_repo()
         mod = load_module(pid)
+        if os.environ.get('VERIF_CONTRACTS', '1') != '0':
+            from . import attach
+            attach.install(ctx)
         if hasattr(mod, 'setup'):
             mod.setup(ctx)
         import signal, statistics
@@ -169,7 +173,7 @@ def run_shard(pid, tier, seed, shard, nshards, out):
 
 def merge(results):
     m = {'evaluations': 0, 'sigs': set(), 'counters': {}, 'maxstats': {}, 'violations': [], 'vcount': {},
-         'samples': [], 'harness_errors': [], 'inconclusive': [], 'wall': 0.0}
+         'samples': [], 'harness_errors': [], 'inconclusive': [], 'wall': 0.0, 'foreign': []}
     for r in results:
         m['evaluations'] += r.get('evaluations', 0)
         m['sigs'].update(r.get('sigs', []))
@@ -183,6 +187,8 @@ def merge(results):
         if len(m['samples']) < 5:
             m['samples'].extend(r.get('samples', [])[:2])
         m['harness_errors'].extend(r.get('harness_errors', []))
+        if len(m['foreign']) < 8:
+            m['foreign'].extend(r.get('foreign', [])[:2])
         if r.get('inconclusive'):
             m['inconclusive'].append(r['inconclusive'])
         m['wall'] = max(m['wall'], r.get('wall', 0.0))
@@ -301,7 +307,9 @@ def conclude(pid, tier, seed, m, wall):
         'distinct_nontrivial': len(m['sigs']),
         'rule': mod.RULE,
         'samples': m['samples'][:5] or [{'note': 'no sample recorded'}],
-        'counters': dict(sorted(m['counters'].items())),
+        'counters': {k: v for k, v in sorted(m['counters'].items()) if not k.startswith('contract_') and k != '_foreign'},
+        'contract_evaluations': {k[len('contract_'):]: v for k, v in sorted(m['counters'].items()) if k.startswith('contract_')},
+        'foreign_contract_firings': {'count': m['counters'].get('_foreign', 0), 'examples': m['foreign'][:5]},
         'max_observed': {k: v for k, v in sorted(m['maxstats'].items())},
         'known_findings_seen': {k: m['vcount'].get(k, 0) for k in known_keys},
         'new_violation_keys': sorted(new_by_key),
@@ -322,7 +330,10 @@ def conclude(pid, tier, seed, m, wall):
 
     print(f'[{pid}] {mod.TITLE}')
     print(f'[{pid}] tier={tier} seed={seed} evaluations={m["evaluations"]} distinct_nontrivial={len(m["sigs"])} wall={wall:.1f}s')
-    ctr = ' '.join(f'{k}={v}' for k, v in sorted(m['counters'].items()))
+    ctr = ' '.join(f'{k}={v}' for k, v in sorted(m['counters'].items()) if not k.startswith('contract_') and k != '_foreign')
+    ctr += ' | contracts: ' + ' '.join(f'{k[9:]}={v}' for k, v in sorted(m['counters'].items()) if k.startswith('contract_'))
+    if m['counters'].get('_foreign'):
+        ctr += f" | foreign contract firings: {m['counters']['_foreign']}"
     print(f'[{pid}] observed: {ctr}')
     for ln in lines:
         print(ln)
@@ -344,6 +355,9 @@ def replay(pid, path):
     with open(path) as f:
         rec = json.load(f)
     ctx = Ctx(pid, rec.get('tier', 'quick'), rec.get('seed', 0), 0, 1)
+    if os.environ.get('VERIF_CONTRACTS', '1') != '0':
+        from . import attach
+        attach.install(ctx)
     if hasattr(mod, 'setup'):
         mod.setup(ctx)
     ctx.case = rec['case']
